@@ -598,6 +598,26 @@ fn dump_fn<'tcx>(tcx: TyCtxt<'tcx>, ldid: LocalDefId) -> J {
         o.push(("takes_self".into(), J::Bool(ai.is_method())));
     }
     o.push(("preds".into(), predicates_j(tcx, did)));
+    // names of the type / const parameters in the order of a call's generic arguments (parents first, lifetimes skipped)
+    {
+        let mut chain = vec![];
+        let mut cur = Some(tcx.typeck_root_def_id(did));
+        while let Some(d) = cur {
+            let g = tcx.generics_of(d);
+            chain.push(g);
+            cur = g.parent;
+        }
+        let mut names = vec![];
+        for g in chain.iter().rev() {
+            for p in g.own_params.iter() {
+                if matches!(p.kind, ty::GenericParamDefKind::Lifetime) {
+                    continue;
+                }
+                names.push(J::s(p.name.to_string()));
+            }
+        }
+        o.push(("generics".into(), J::Arr(names)));
+    }
 
     // locals
     let mut locals = vec![];
